@@ -247,6 +247,8 @@ def feasible(case):
 def oracle_c02(case, res, guard=True):
     if res["status"] == "exhausted":
         return "rejected as uncovered although every disposal is covered by lots acquired at or before it" if feasible(case) else None
+    if res["status"].startswith(("error", "crash", "hang")):
+        return f"the run aborts ({res['status']}: {res.get('_msg', '')[:80]}) although every disposal is covered by lots acquired at or before it" if feasible(case) else None
     if res["status"] != "ok":
         return None
     if not feasible(case):
